@@ -589,7 +589,24 @@ class Model(object):
                     parent = s.parent
                     grand = parent.parent
                     self.raise_internal("done.state." + self.sid(parent))
-                    if grand is not None and grand is not self.root and self.is_parallel(grand):
+                    if "done_all_leaves" in self.variant:
+                        # like the engines: every parallel ancestor (innermost first) is reported done when all its regions are
+                        # active and every active leaf below it is a <final> - a region whose active child is a completed
+                        # nested parallel counts as final, which isInFinalState of Appendix D does not allow
+                        anc = []
+                        a = parent.parent
+                        while a is not None and a is not self.root:
+                            if self.is_parallel(a):
+                                anc.append(a)
+                            a = a.parent
+                        for j in anc:
+                            regions = self.child_states(j)
+                            if not all(c in self.configuration for c in regions):
+                                continue
+                            leaves = [x for x in self.configuration if self.is_descendant(x, j) and not any(c in self.configuration for c in self.child_states(x))]
+                            if leaves and all(self.is_final(x) for x in leaves):
+                                self.raise_internal("done.state." + self.sid(j))
+                    elif grand is not None and grand is not self.root and self.is_parallel(grand):
                         if all(self.in_final_state(c) for c in self.child_states(grand)):
                             self.raise_internal("done.state." + self.sid(grand))
 
